@@ -291,7 +291,7 @@ func DrawHistory(r *Rng, cfg HistConfig) (*Scenario, *histWorld) {
 			run.Cwd = ""
 			for _, g := range run.Gens {
 				if isScripted(&g) {
-					run.Faults = append(run.Faults, proto.Fault{ExecSeq: -1, Kind: "gen", Gen: g.Name, Nth: r.Intn(2), Do: Pick(r, []string{"gen-error", "gen-unparseable"})})
+					run.Faults = append(run.Faults, proto.Fault{ExecSeq: -1, Kind: "gen", Gen: g.Name, Nth: r.Intn(2), Do: Pick(r, []string{"gen-error", "gen-unparseable", "gen-error", "gen-unparseable", "signal:INT", "signal:TERM"})})
 					break
 				}
 			}
